@@ -23,10 +23,9 @@
        exact expansion; one-norm: exact on steps that do not cross 0, sign(0) = 0 convention, mask >= 0;
      * loss table: evalDerivative value = eval value; batch = sum of elements; gradient = derivative of the
        value (exact algebraic expansion, kinks excluded by explicit side conditions) for squared (both
-       label kinds), hinge (one output and multi-class), squared hinge with ONE output, eps-hinge, squared
+       label kinds), hinge and squared hinge (one output and multi-class), eps-hinge, squared
        eps-hinge, Huber inside the quadratic region.
-   PARTIAL (named *_partial): gradients of the multi-class squared hinge, of Huber outside the
-     ball (square root) are not proved; the generic chain rule is instantiated only for the linear model.
+   PARTIAL (named *_partial): the gradient of Huber outside the ball (square root) is not proved; the generic chain rule is instantiated only for the linear model.
    ONLY COMPARED / MONITORED by tools/c06.py (not proved): cross-entropy (log-sum-exp, float model at
      1e-12), absolute loss off perfect squares, Huber outer region, NegativeAUC (brute force pairs),
      ZeroOneLoss weighted eval, finite-difference gradient monitor on every loss and on a non-linear model,
@@ -217,15 +216,23 @@ Theorem C06_hinge_multiclass_gradient :
 Proof. exact hinge_mc_gradient. Qed.
 Print Assumptions C06_hinge_multiclass_gradient.
 
-(* full statement: for every output dimension; proved for one output (binary labels) *)
-Theorem C06_squared_hinge_gradient_partial :
+(* SquaredHingeLoss: one output and several outputs *)
+Theorem C06_squared_hinge_binary_gradient :
   forall c x h,
     (0 < 1 - ylab c * x /\ 0 < 1 - ylab c * (x + h)) \/ (1 - ylab c * x < 0 /\ 1 - ylab c * (x + h) < 0) ->
     sqhinge_eval 1 [(c, [x + h])] - sqhinge_eval 1 [(c, [x])]
     == h * (nth 0 (nth 0 (snd (sqhinge_evald 1 [(c, [x])])) []) 0
             + h * (if Qlt_le_dec 0 (1 - ylab c * x) then (1#2) * (ylab c * ylab c) else 0)).
 Proof. exact sqhinge_bin_gradient. Qed.
-Print Assumptions C06_squared_hinge_gradient_partial.
+Print Assumptions C06_squared_hinge_binary_gradient.
+
+Theorem C06_squared_hinge_multiclass_gradient :
+  forall c p v t dim, (dim =? 1)%nat = false -> (c < dim)%nat -> length p = dim -> length v = dim ->
+    (forall o, In o (others c dim) -> hinge_mc_same_side c p v t o) ->
+    sqhinge_eval dim [(c, vaxpy t v p)] - sqhinge_eval dim [(c, p)]
+    == t * (dot (nth 0 (snd (sqhinge_evald dim [(c, p)])) []) v + t * qsum (map (sqhinge_mc_rem c p v) (others c dim))).
+Proof. exact sqhinge_mc_gradient. Qed.
+Print Assumptions C06_squared_hinge_multiclass_gradient.
 
 Theorem C06_epsilon_hinge_gradient :
   forall eps l x h, 0 <= eps ->
